@@ -349,7 +349,8 @@ def model_script(case, flavor, reacts):
     for kind, tab in (case.get("react") or {}).items():
         for msg, acts in tab.items():
             cmds[_rname(kind, msg)] = [(["sendTo", a[1], int(msg[1:]), None, None] if a[0] == "forwardTo" else a) for a in acts]
-    head = {"flavor": flavor, "eager": bool(case.get("eager", True)), "invoke": case.get("invoke") or {}, "cmds": cmds}
+    head = {"flavor": flavor, "eager": bool(case.get("eager", True)), "invoke": case.get("invoke") or {}, "cmds": cmds,
+            "f71fixed": c15.f71_fixed()}
     lines = ["CASE " + json.dumps(head)]
     groups = [[0]]
     now = 0
